@@ -26,6 +26,8 @@
      "SkipPreCheckpointFiles"     recovery skips files before the checkpoint's file although no
                                   snapshot of their contents exists          (known; WalManager level)
      "UnloggedOps"                some mutations are never logged            (known)
+     "RepairNewestOnly"           repair() looks for a torn tail in the newest file only (hypothetical: never in
+                                  the tree; kept as the vacuity guard of the crash-inside-rotate window)
 *)
 EXTENDS Naturals, Sequences, FiniteSets, TLC
 CONSTANTS MaxOps, MaxLog, Mode, BatchN, AsIs, MaxCrashes, MaxCkpt, MaxCloses, MaxFlips
@@ -34,13 +36,16 @@ vars == <<files, meta, open, mem, issued, durable, crashes, ckpts, closes, flips
 
 Switches == {"NoCommitMarkerBeforeClose", "CheckpointDropsPending", "SkipPreCheckpointFiles",
              "RotateWithoutFsync", "ContinueAfterBadRecord", "AppendBehindGarbage", "KeepUncommittedTail",
-             "UnloggedOps"}
+             "UnloggedOps", "RepairNewestOnly"}
 OpR(i) == [k |-> "op", i |-> i]
 Cm == [k |-> "commit", i |-> 0]
 Ck == [k |-> "ckpt", i |-> 0]
 Ab == [k |-> "abort", i |-> 0]
 Junk == [k |-> "junk", i |-> 0]
-NewFile == [recs |-> <<>>, w |-> 0, s |-> 0]
+\* ps: what the previous file had fsynced when the rotation that created this file began (rotate() creates the new
+\* file first and only then flushes and fsyncs the old one: a crash in between leaves the old file with any length
+\* from ps on, next to the new, still empty file)
+NewFile == [recs |-> <<>>, w |-> 0, s |-> 0, ps |-> 0]
 
 Init == /\ files = <<NewFile>> /\ meta = 0 /\ open = TRUE /\ mem = {}
         /\ issued = 0 /\ durable = 0 /\ crashes = 0 /\ ckpts = 0 /\ closes = 0 /\ flips = 0
@@ -48,7 +53,8 @@ Init == /\ files = <<NewFile>> /\ meta = 0 /\ open = TRUE /\ mem = {}
 
 A(fs) == Len(fs)
 LenA(fs) == Len(fs[Len(fs)].recs)
-SyncAll(fs) == [fs EXCEPT ![Len(fs)].w = LenA(fs), ![Len(fs)].s = LenA(fs)]
+\* (an fsync of the last file also ends the window in which a crash could still have struck inside the rotation that created it)
+SyncAll(fs) == [fs EXCEPT ![Len(fs)].w = LenA(fs), ![Len(fs)].s = LenA(fs), ![Len(fs)].ps = IF Len(fs) > 1 THEN fs[Len(fs) - 1].s ELSE 0]
 FlushAll(fs) == [fs EXCEPT ![Len(fs)].w = LenA(fs)]
 
 \* WalManager::log: append to the BufWriter, then the durability-mode step, then rotation.
@@ -57,17 +63,23 @@ ModeStep(fs, r, rs) ==
   CASE Mode = "Sync"  -> IF r.k = "commit" THEN <<SyncAll(fs), 0>> ELSE <<fs, rs + 1>>
     [] Mode = "Batch" -> IF rs + 1 >= BatchN THEN <<SyncAll(fs), 0>> ELSE <<fs, rs + 1>>
     [] OTHER          -> <<FlushAll(fs), rs + 1>>            \* Adaptive / NoSync: flush only
-Rotate(fs) ==
-  IF LenA(fs) >= MaxLog
+\* Rotation: after a record is appended and the durability-mode step is done, the file is rotated when it has reached
+\* its size limit.  tg = <<>>: the limit is MaxLog records (model checking).  Otherwise tg is the observed number of
+\* records of every file after the call (trace validation: the limit is in bytes, so the trace says where the files end).
+RotCond(fs, tg) == IF tg = <<>> THEN LenA(fs) >= MaxLog ELSE Len(fs) < Len(tg) /\ LenA(fs) >= tg[Len(fs)]
+RotateG(fs, tg) ==
+  IF RotCond(fs, tg)
   THEN LET old == [fs EXCEPT ![Len(fs)].w = LenA(fs),
                              ![Len(fs)].s = IF "RotateWithoutFsync" \in AsIs THEN @ ELSE LenA(fs)]
-       IN Append(old, NewFile)
+       IN Append(old, [NewFile EXCEPT !.ps = fs[Len(fs)].s])
   ELSE fs
-Log1(st, r) == LET a == [st[1] EXCEPT ![Len(st[1])].recs = Append(@, r)]
-                   m == ModeStep(a, r, st[2])
-               IN <<Rotate(m[1]), m[2]>>
-RECURSIVE LogMany(_, _)
-LogMany(st, rs) == IF rs = <<>> THEN st ELSE LogMany(Log1(st, Head(rs)), Tail(rs))
+Rotate(fs) == RotateG(fs, <<>>)
+Log1G(st, r, tg) == LET a == [st[1] EXCEPT ![Len(st[1])].recs = Append(@, r)]
+                        m == ModeStep(a, r, st[2])
+                    IN <<RotateG(m[1], tg), m[2]>>
+RECURSIVE LogManyG(_, _, _)
+LogManyG(st, rs, tg) == IF rs = <<>> THEN st ELSE LogManyG(Log1G(st, Head(rs), tg), Tail(rs), tg)
+LogMany(st, rs) == LogManyG(st, rs, <<>>)
 
 \* ---- recovery: WalRecovery::recover_internal
 RECURSIVE ScanFile(_, _, _)
@@ -89,7 +101,7 @@ RecoveredOf(fs, mt) == ScanFiles(fs, First(fs, mt), {}, {})
 Recovered == RecoveredOf(files, meta)
 
 \* ---- what the last fsyncs guarantee: recovery from the fsynced bytes alone
-SyncedOnly(fs) == [f \in 1..Len(fs) |-> [recs |-> SubSeq(fs[f].recs, 1, fs[f].s), w |-> fs[f].s, s |-> fs[f].s]]
+SyncedOnly(fs) == [f \in 1..Len(fs) |-> [recs |-> SubSeq(fs[f].recs, 1, fs[f].s), w |-> fs[f].s, s |-> fs[f].s, ps |-> 0]]
 RECURSIVE LeadIn(_, _, _)
 LeadIn(h, S, n) == IF n < Len(h) /\ h[n + 1] \in S THEN LeadIn(h, S, n + 1) ELSE n
 DurOf(fs, mt, h, d) == LET x == LeadIn(h, RecoveredOf(SyncedOnly(fs), mt), 0) IN IF x > d THEN x ELSE d
@@ -117,36 +129,48 @@ Sync ==
   /\ durable' = Len(hist)            \* a successful explicit sync promises everything issued so far
   /\ UNCHANGED <<meta, open, mem, issued, crashes, ckpts, closes, flips, hist, okRec>>
 \* GrafeoDB::wal_checkpoint: [commit marker] ; log(Checkpoint) ; sync ; metadata ; sync
-Checkpoint ==
+CheckpointG(tg) ==
   /\ open /\ ckpts < MaxCkpt /\ ckpts' = ckpts + 1
   /\ LET pre == IF "CheckpointDropsPending" \in AsIs THEN <<Ck>> ELSE <<Cm, Ck>>
-         st == LogMany(<<files, rsince>>, pre)
+         st == LogManyG(<<files, rsince>>, pre, tg)
          f1 == SyncAll(st[1])
      IN /\ files' = f1 /\ rsince' = 0 /\ meta' = Len(f1)
         /\ durable' = Len(hist)
   /\ UNCHANGED <<open, mem, issued, crashes, closes, flips, hist, okRec>>
-Close ==
+Checkpoint == CheckpointG(<<>>)
+CloseG(tg) ==
   /\ open /\ closes < MaxCloses /\ closes' = closes + 1 /\ open' = FALSE
-  /\ LET st == LogMany(<<files, rsince>>, <<Cm, Ck>>)
+  /\ LET st == LogManyG(<<files, rsince>>, <<Cm, Ck>>, tg)
          f1 == SyncAll(st[1])
      IN /\ files' = f1 /\ rsince' = 0 /\ meta' = Len(f1)
         /\ durable' = Len(hist)
   /\ UNCHANGED <<mem, issued, crashes, ckpts, flips, hist, okRec>>
+Close == CloseG(<<>>)
 \* crash image: file f keeps ch[f][1] records (s <= keep <= w); ch[f][2]: the next record is torn
 ImageOf(fs, ch) ==
   [f \in 1..Len(fs) |->
      LET rs == SubSeq(fs[f].recs, 1, ch[f][1])
          rs2 == IF ch[f][2] THEN Append(rs, Junk) ELSE rs
-     IN [recs |-> rs2, w |-> Len(rs2), s |-> Len(rs2)]]
+     IN [recs |-> rs2, w |-> Len(rs2), s |-> Len(rs2), ps |-> 0]]
+\* the least number of records file f keeps in a crash: its fsynced records - or, while the file after it is the
+\* last one and still empty, what it had fsynced before that rotation began (crash inside rotate())
+InRotate(fs, f) == f + 1 = Len(fs) /\ fs[f + 1].recs = <<>>
+Floor(fs, f) == IF InRotate(fs, f) /\ fs[f + 1].ps < fs[f].s THEN fs[f + 1].ps ELSE fs[f].s
+\* the fsyncs that had happened when such a crash struck: the rotation's own fsync is not among them
+PreRotate(fs, ch) == [f \in 1..Len(fs) |-> IF ch[f][1] < fs[f].s THEN [fs[f] EXCEPT !.s = Floor(fs, f)] ELSE fs[f]]
 RECURSIVE Choices(_, _)
 Choices(fs, f) == IF f > Len(fs) THEN {<<>>}
-                  ELSE { <<c>> \o rest : c \in { <<k, t>> : k \in fs[f].s..fs[f].w, t \in BOOLEAN }, rest \in Choices(fs, f + 1) }
+                  ELSE { <<c>> \o rest : c \in { <<k, t>> : k \in Floor(fs, f)..fs[f].w, t \in BOOLEAN }, rest \in Choices(fs, f + 1) }
 ValidChoice(fs, ch) == \A f \in 1..Len(fs) : ch[f][2] => ch[f][1] < fs[f].w
 Crash ==
   /\ open /\ crashes < MaxCrashes /\ crashes' = crashes + 1 /\ open' = FALSE
-  /\ \E ch \in Choices(files, 1) : ValidChoice(files, ch) /\ files' = ImageOf(files, ch)
+  /\ \E ch \in Choices(files, 1) :
+        /\ ValidChoice(files, ch) /\ files' = ImageOf(files, ch)
+        \* a crash inside rotate() struck before the rotation's fsync: that fsync promised nothing
+        /\ durable' = IF \E f \in 1..Len(files) : ch[f][1] < files[f].s
+                      THEN LeadIn(hist, RecoveredOf(SyncedOnly(PreRotate(files, ch)), meta), 0) ELSE durable
   /\ rsince' = 0
-  /\ UNCHANGED <<meta, mem, issued, durable, ckpts, closes, flips, hist, okRec>>
+  /\ UNCHANGED <<meta, mem, issued, ckpts, closes, flips, hist, okRec>>
 \* single-bit corruption of a record of a closed database: the record (and the rest of its file) is unreadable
 BitFlip ==
   /\ ~open /\ flips < MaxFlips /\ flips' = flips + 1
@@ -163,17 +187,17 @@ CutAtJunk(rs) == LET p == CHOOSE i \in DOMAIN rs : rs[i].k = "junk" /\ \A j \in 
                  IN SubSeq(rs, 1, p - 1)
 Repair(fs, mt) ==
   IF "AppendBehindGarbage" \in AsIs THEN fs
-  ELSE LET jf == FirstJunkFile(fs, First(fs, mt)) IN
+  ELSE LET jf == FirstJunkFile(fs, IF "RepairNewestOnly" \in AsIs THEN Len(fs) ELSE First(fs, mt)) IN
        IF jf = 0 THEN fs
        ELSE LET cut == CutAtJunk(fs[jf].recs) IN
-            [f \in 1..jf |-> IF f = jf THEN [recs |-> cut, w |-> Len(cut), s |-> Len(cut)] ELSE fs[f]]
+            [f \in 1..jf |-> IF f = jf THEN [recs |-> cut, w |-> Len(cut), s |-> Len(cut), ps |-> 0] ELSE fs[f]]
 PrefixLen(R, h) == IF \E k \in 0..Len(h) : R = {h[i] : i \in 1..k}
                    THEN CHOOSE k \in 0..Len(h) : R = {h[i] : i \in 1..k} ELSE Len(h) + 1
-Open ==
+OpenG(tg) ==
   /\ ~open /\ open' = TRUE
   /\ LET R == Recovered
          f0 == Repair(files, meta)
-         st == IF "KeepUncommittedTail" \in AsIs THEN <<f0, 0>> ELSE LogMany(<<f0, 0>>, <<Ab>>)
+         st == IF "KeepUncommittedTail" \in AsIs THEN <<f0, 0>> ELSE LogManyG(<<f0, 0>>, <<Ab>>, tg)
          k == PrefixLen(R, hist)
      IN /\ mem' = R /\ files' = st[1] /\ rsince' = st[2]
         /\ IF k <= Len(hist) /\ k >= durable
@@ -181,6 +205,8 @@ Open ==
            ELSE okRec' = FALSE /\ hist' = hist
         /\ durable' = IF k <= Len(hist) /\ k >= durable THEN DurOf(st[1], meta, SubSeq(hist, 1, k), durable) ELSE durable
   /\ UNCHANGED <<meta, issued, crashes, ckpts, closes, flips>>
+
+Open == OpenG(<<>>)
 
 Next == (\E m \in 1..2 : Issue(m)) \/ IssueUnlogged \/ Sync \/ Checkpoint \/ Close \/ Crash \/ BitFlip \/ Open
 Spec == Init /\ [][Next]_vars
